@@ -10,7 +10,7 @@ ID = "C20"
 LEVEL = "exploration"
 TECHNIQUE = (
     "differential property-based testing: a generated operation script (the C01 edit alphabet) is executed once "
-    "without and once inside properly nested Journal contexts (depth 0-3, optionally left by an exception); outcomes, "
+    "without and once inside properly nested Journal contexts (depth 0-3, optionally left by an exception, fresh Journal objects or long-lived ones used again at another depth); outcomes, "
     "final snapshots, the entry sequence (against a harness-side ground-truth log slipped under the journal's wrappers), "
     "class restoration (identity of every instrumented attribute) and weak-reference hygiene are compared"
 )
@@ -44,6 +44,7 @@ def strategy(tier, phase):
 
     names = list(U.DEFAULT_OPS) + list(U.SETTER_OPS) * 3
     seg = st.fixed_dictionaries({"depth": st.integers(0, 2), "inner": st.integers(0, 2), "boom": st.sampled_from([False, False, True]),
+                                 "reuse": st.sampled_from([0, 0, 1, 2, 3, 5, 6]),
                                  "ops": st.lists(U.op_strategy(names), min_size=1, max_size=9)})
     return st.fixed_dictionaries({"setup": st.integers(0, 1), "segments": st.lists(seg, min_size=1, max_size=5)})
 
@@ -188,6 +189,9 @@ def run_script(case, journaled):
     problems = []
     stats = dict(inside=0, rejected_inside=0, maxdepth=0, boom=False)
     log = []
+    pool = [Journal(), Journal()]
+    used_once = []
+    active = []
     for si, seg in enumerate(case["segments"]):
         depth = seg["depth"] % 3
         inner = seg.get("inner", 0) % 3
@@ -222,17 +226,29 @@ def run_script(case, journaled):
                 """Journal + the slice of ground-truth events logged while it was active."""
 
                 def __init__(self):
-                    self.j = Journal()
+                    # a Journal object may be used again after it was left (its entries accumulate): bit k of "reuse"
+                    # makes the k-th journal of the segment one of two long-lived objects, if that one is not active now
+                    k = len(opened)
+                    cand = pool[k % 2]
+                    if (seg.get("reuse", 0) >> k) & 1 and not any(o.j is cand for o in active):
+                        self.j = cand
+                        stats["reused"] = stats.get("reused", 0) + (1 if len(cand.entries) or cand in used_once else 0)
+                        used_once.append(cand)
+                    else:
+                        self.j = Journal()
 
                 def __enter__(self):
+                    self.n0 = len(self.j.entries)
                     self.j.__enter__()
                     self.start = len(log)
                     opened.append(self)
+                    active.append(self)
                     return self
 
                 def __exit__(self, *a):
                     r = self.j.__exit__(*a)
-                    closed.append((self.j, list(log[self.start:])))
+                    active.remove(self)
+                    closed.append((self.j, list(log[self.start:]), self.n0, len(self.j.entries)))
                     return r
 
             try:
@@ -303,8 +319,8 @@ def execute(case):
             break
     # 3. entries vs ground-truth events
     op_of_attr, attr_of_op = {}, {}
-    for j, events in jr["journals"]:
-        entries = list(j.entries)
+    for j, events, n0, n1 in jr["journals"]:
+        entries = list(j.entries)[n0:n1]
         if len(entries) != len(events):
             fails.append(("entry-count", f"journal recorded {len(entries)} entries for {len(events)} instrumented calls; first entries {[e.operation + ':' + e.class_name for e in entries[:6]]} events {[e[0] for e in events[:6]]}"[:500]))
             continue
@@ -316,7 +332,10 @@ def execute(case):
                 fails.append(("operation-name-inconsistent", f"{attr} recorded as {op_of_attr[attr]!r} and {e.operation!r}"))
                 break
     # 4. weak references
-    journals = [j for j, _ in jr["journals"]]
+    journals = []
+    for j, _, _, _ in jr["journals"]:
+        if not any(j is x for x in journals):
+            journals.append(j)
     entries = [e for j in journals for e in j.entries]
     leaked_types = set()
     from onnx_ir import _core
@@ -333,6 +352,8 @@ def execute(case):
         classes.append("left_by_exception")
     if jr["stats"]["rejected_inside"]:
         classes.append("rejected_call_inside")
+    if jr["stats"].get("reused"):
+        classes.append("journal_object_used_again")
     n_entries = len(entries)
     del control, entries
     jr["u"] = None
@@ -341,7 +362,7 @@ def execute(case):
     jr.clear()
     gc.collect()
     alive = 0
-    for j, _ in jr_j:
+    for j in {id(x[0]): x[0] for x in jr_j}.values():
         for e in j.entries:
             if e.ref is not None and e.ref() is not None:
                 alive += 1
